@@ -307,6 +307,47 @@ class ProposePower:
     )
 
 
+def _sender(self):
+    return self._pool_ref_store._power_manager_requests_sender
+
+
+@contract(f"{BPOOL}:BatteryPool.propose_charge")
+class ProposeCharge:
+    """C04 (caller side): a charge proposal reaches the power manager as the same positive power, without bounds; a
+    negative value is refused."""
+    self_shape = PoolForProposalT
+    shapes = dict(power=Opt(PowerT))
+    ghost = dict(loop=ExtObj("event loop", methods=dict(time=dict(returns="now_s"))), now_s=Real)
+    externals = {"asyncio.get_running_loop": "loop"}
+    modifies = ["self._pool_ref_store._power_manager_requests_sender", "loop"]
+    raises = dict(ValueError="power is not None and power.as_watts() < 0")
+    ensures = dict(
+        one_proposal="_sender(self).n_sent == old(_sender(self).n_sent) + 1",
+        power_as_given="_sender(self).last_power == power",
+        no_bounds="_sender(self).last_lower is None and _sender(self).last_upper is None",
+        identity_as_configured="_sender(self).last_priority == self._priority and _sender(self).last_source == self._source_id"
+                               " and _sender(self).last_op == self._set_operating_point",
+    )
+
+
+@contract(f"{BPOOL}:BatteryPool.propose_discharge")
+class ProposeDischarge:
+    """... and a discharge proposal as the NEGATED power (discharging is negative in the passive sign convention)."""
+    self_shape = PoolForProposalT
+    shapes = dict(power=Opt(PowerT))
+    ghost = ProposeCharge.ghost
+    externals = ProposeCharge.externals
+    modifies = ProposeCharge.modifies
+    raises = dict(ValueError="power is not None and power.as_watts() < 0")
+    ensures = dict(
+        one_proposal=ProposeCharge.ensures["one_proposal"],
+        power_negated="(_sender(self).last_power is None) == (power is None)"
+                      " and implies(power is not None, _sender(self).last_power.as_watts() == -power.as_watts())",
+        no_bounds=ProposeCharge.ensures["no_bounds"],
+        identity_as_configured=ProposeCharge.ensures["identity_as_configured"],
+    )
+
+
 @contract(f"{A}:PowerManagingActor._bounds_tracker")
 class BoundsTracker:
     """C11 ("the latest system bounds the manager has RECEIVED"): every bounds message - whatever its timestamp -
